@@ -38,7 +38,12 @@ static void put(const std::string& t, int place, Placed& o) {
   } else {
     char* p = (char*)g_arena->at_start(0);
     memcpy(p, t.data(), t.size());
-    memset(p + t.size(), '"', std::min<size_t>(64, g_arena->capacity() - t.size()));  // hostile bytes after the input
+    // hostile bytes after the input: what a scanner that strays past the end would love to find (by text length: quotes,
+    // closers and commas, a valid-looking continuation, backslashes, digits)
+    static const char* hostile[] = {"\"", ",]}", ",1]}]}],\"k\":2}", "\\", "0123456789", "]", "}", ","};
+    const char* h = hostile[t.size() % 8];
+    size_t room = std::min<size_t>(96, g_arena->capacity() - t.size()), hl = strlen(h);
+    for (size_t i = 0; i < room; i++) p[t.size() + i] = h[i % hl];
     o.p = p;
   }
 }
@@ -384,7 +389,30 @@ static void property_c11(Src& s, Case& c) {
     }
     default: text = nesting_text(s, 30); what = "nesting"; break;
   }
+  bool long_tail = false;
+  if (s.coin(1, 10)) {
+    // the text ends inside (or right behind) a long scalar that a path can select: 17..200 characters of number / literal / string
+    size_t n = s.coin(1, 2) ? (size_t)s.pick(17, 70) : (size_t)s.pick(17, 200);
+    std::string scalar;
+    switch (s.index(3)) {
+      case 0: scalar = "-"; for (size_t i = 0; i < n; i++) scalar += (char)('0' + (i * 7 + n) % 10); break;
+      case 1: scalar = "1."; for (size_t i = 0; i < n; i++) scalar += (char)('0' + (i * 3 + n) % 10); scalar += "e-5"; break;
+      default: scalar = "\"" + std::string(n, 's'); break;  // unterminated string
+    }
+    switch (s.index(3)) {
+      case 0: text = scalar; v = MV::null(); break;
+      case 1: text = "[" + scalar; break;
+      default: text = "{\"a\":" + scalar; break;
+    }
+    what = "ends-in-long-scalar";
+    long_tail = true;
+  }
   refjson::Path p = gen_any_path(s, &v);
+  if (long_tail) {  // the path that selects the scalar
+    p.clear();
+    if (text[0] == '[') { refjson::Step st; st.is_key = false; st.idx = 0; p.push_back(st); }
+    else if (text[0] == '{') { refjson::Step st; st.is_key = true; st.key = "a"; p.push_back(st); }
+  }
   int place = (int)s.weighted({2, 3, 1});
   c.note("text", text);
   c.note("path", path_encode(p));
